@@ -104,6 +104,9 @@ act!(c16_activation_names0, Some(0), 2); // "varlink"
 act!(c16_activation_names1, Some(1), 2); // "a:varlink"
 act!(c16_activation_names2, Some(2), 2); // "a:b"
 act!(c16_activation_names5, Some(5), 2); // "a:b:varlink"
+act!(c16_activation_names6, Some(6), 2); // "varlinkx:varlink"
+act!(c16_activation_names7, Some(7), 2); // "a:varlinkx"
+act!(c16_activation_names8, Some(8), 2); // "xvarlink:b"
 act!(c16_activation_fds1_nonames, None, 1);
 act!(c16_activation_fds1_names1, Some(1), 1);
 act!(c16_activation_fds0, None, 0);
